@@ -101,20 +101,18 @@ def handleBuild (toks : List String) : Ans :=
   match toks.mapM parseBuildOp with
   | none => bad
   | some ops =>
-    let (b, marks) := ops.foldl (fun (st : Board × List Char) op =>
-      let (b', ok) := Fen.buildStep st.1 op
-      (b', (if ok then '+' else '!') :: st.2)) (Board.builderInit, [])
+    let (b, flags) := Fen.runBuild ops
+    let marks := flags.map (fun ok => if ok then '+' else '!')
     let res := match Fen.build b with
       | .ok b' => "ok " ++ encodeBoard b' ++ " " ++ showDerived b'
       | .error e => "err " ++ showValErr e
-    let modelOut := String.ofList marks.reverse ++ " " ++ res
-    let (s, smarks) := ops.foldl (fun (st : Spec.BuildSt × List Char) op =>
-      let (s', ok) := Spec.buildStep st.1 op
-      (s', (if ok then '+' else '!') :: st.2)) (Spec.BuildSt.init, [])
+    let modelOut := String.ofList marks ++ " " ++ res
+    let (s, sflags) := Spec.runBuild ops
+    let smarks := sflags.map (fun ok => if ok then '+' else '!')
     let specOut := match decodePos (encodeFields s.at_ s.turn s.castle s.ep s.half s.full) with
       | some bs =>
-        if (abs bs).valid then String.ofList smarks.reverse ++ " ok " ++ encodeBoard bs ++ " " ++ showDerived bs
-        else if res.startsWith "err" then "-" else String.ofList smarks.reverse ++ " err (the assembled position is not valid)"
+        if (abs bs).valid then String.ofList smarks ++ " ok " ++ encodeBoard bs ++ " " ++ showDerived bs
+        else if res.startsWith "err" then "-" else String.ofList smarks ++ " err (the assembled position is not valid)"
       | none => "-"
     (modelOut, specOut)
 
